@@ -141,11 +141,11 @@ async fn run_proxy(rest: &str) -> String {
 // E3b: the real NodeSession handlers (node messages, control messages, lifecycle events)
 //
 //   sess <case-id> <xs: q,q,..|-> | <op> ; ...
-//     local actors (index i):   spawn i | join i g | leave i g | exit i
+//     local actors (index i):   spawn i | join i g | leave i g | exit i | hexit i (exit, lifecycle event held back)
 //     frames arriving:          rcast i v bytes | rcall i tag v bytes          (i = 99: unknown pid)
 //                               fspawn q | fterm q | fjoin g q | fleave g q | freply q tag bytes
 //     through remote references: send q v bytes | scall q v bytes port | drop port
-//   one output per op: (mkU ok [wire] [dlv] [res] [px])
+//   one output per op: (mkU ok [wire] [dlv] [res] [px] [advertised])
 
 /// A message type that keeps variant and argument bytes as they are.
 enum RawMsg {
@@ -249,6 +249,7 @@ async fn run_sess(rest: &str) -> String {
             continue;
         }
         let mut ok = true;
+        let mut hold = false;
         let local_pid = |probes: &HashMap<u64, ActorCell>, i: u64| probes.get(&i).map(|c| c.get_id().pid()).unwrap_or(999_999);
         match w[0] {
             "spawn" => {
@@ -270,10 +271,14 @@ async fn run_sess(rest: &str) -> String {
                     }
                 }
             }
-            "exit" => {
+            "exit" | "hexit" => {
+                // hexit: the actor stops (it leaves the pid registry) but the session does not get to
+                // its lifecycle event before the next operation: the interleaving "an inbound message
+                // for the actor is handled between its unregistration and the Terminate event"
                 if let Some(c) = probes.get(&u(w[1])) {
                     let _ = c.stop_and_wait(None, None).await;
                 }
+                hold = w[0] == "hexit";
             }
             "rcast" => {
                 let to = local_pid(&probes, u(w[1]));
@@ -329,7 +334,14 @@ async fn run_sess(rest: &str) -> String {
             }
             other => panic!("unknown op {other}"),
         }
-        settle(&mut sess).await;
+        if hold {
+            // let every task run, but leave the session's ports alone
+            for _ in 0..3 {
+                tokio::time::sleep(Duration::from_millis(1)).await;
+            }
+        } else {
+            settle(&mut sess).await;
+        }
         // wire
         let mut wire: Vec<String> = Vec::new();
         let gnum = |name: &str| -> u64 {
@@ -394,7 +406,17 @@ async fn run_sess(rest: &str) -> String {
         for (pid, cell) in live {
             handles.insert(pid, cell);
         }
-        outs.push(format!("(mkU {} {} {} {} {})", coq_bool(ok), coq_list(&wire), coq_list(&dlv), coq_list(&res), coq_list(&px)));
+        let mut adv: Vec<u64> = sess.advertised().into_iter().map(|p| idx_of(&pid_idx, p)).collect();
+        adv.sort();
+        outs.push(format!(
+            "(mkU {} {} {} {} {} {})",
+            coq_bool(ok),
+            coq_list(&wire),
+            coq_list(&dlv),
+            coq_list(&res),
+            coq_list(&px),
+            coq_nums(adv)
+        ));
     }
     for c in probes.values() {
         let _ = c.stop_and_wait(None, None).await;
